@@ -305,7 +305,7 @@ class Gen:
         st = self.q(cl, name, meta={"kind": "D", "image": img, "off": off, "n": n})
         if st:
             cl.sent.append(st)
-            if self.rng.random() < 0.2:
+            if self.rng.random() < (0.5 if cl.lazy else 0.15):
                 self.act_redeliver_held()
         if self.rng.random() < 0.9:       # usually the fragment is acked: go on
             off += n
@@ -339,16 +339,20 @@ class Gen:
         if not self.h.steps:
             return
         slots = self.h.steps[-1].slots
-        held = set()
+        held, heldqs = set(), set()
         for d in slots.values():
             for f in ("q", "qs"):
                 i = int(d[f].split("/")[0])
                 if i:
                     held.add(i)
+                    if f == "qs":
+                        heldqs.add(i)
         cands = [(cl, st) for cl in self.clients for st in cl.sent[-6:] if st.meta["id"] in held]
         if not cands:
             return
-        cl, st0 = self.rng.choice(cands)
+        # a query that was just moved to the send-real-soon slot is the interesting one: its answer is due within the same 20 ms
+        soon = [c for c in cands if c[1].meta["id"] in heldqs]
+        cl, st0 = self.rng.choice(soon) if soon and self.rng.random() < 0.7 else self.rng.choice(cands)
         m = st0.meta
         name = m["name"] if self.rng.random() < 0.8 else flip_case(self.rng, m["name"])
         src = m["src"] if self.rng.random() < 0.6 else addr(cl.ip, cl.port + 1, cl.fam)
@@ -481,8 +485,53 @@ class Gen:
             self.advance(self.rng.choice([60, 61, 62, 120]))
 
     # ---- a whole run
+    def scenario_lazy_repeats(self):
+        """a scripted opening: one client logs in, switches to lazy mode, keeps a ping pending and uploads multi-fragment packets while an
+        impatient relay repeats whatever the server is holding at that moment (its `q` or the query just moved to the send-real-soon slot)"""
+        self.act_new_client()
+        cl = self.clients[-1]
+        if not cl.versioned:
+            return
+        cl.qtype = T["NULL"]
+        st = self.q(cl, cl.c.login(), meta={"kind": "L", "good": True})
+        for e in (st.events if st else []):
+            if e[0] == "ans" and vlib.unhx(e[6]).count(b"-") == 3:
+                cl.authed = True
+                try:
+                    cl.tun_ip = struct.unpack(">I", bytes(int(x) for x in vlib.unhx(e[6]).split(b"-")[1].split(b".")))[0]
+                except Exception:
+                    pass
+        if not cl.authed:
+            return
+        st = self.q(cl, cl.c.option(b"l"), meta={"kind": "O"})
+        cl.lazy = True
+        self.act_ping(cl)
+        for _ in range(self.rng.randrange(2, 6)):
+            # one packet in 2..5 fragments (short host names make small fragments)
+            cl.c.up_seq = (cl.c.up_seq + 1) & 7
+            cl.c.up_frag = 0
+            img = b"\x5a" + C.ip_packet(0x08080808, bytes(self.rng.randrange(256) for _ in range(self.rng.choice([90, 150, 260]))))
+            off = 0
+            while off < len(img) and not self.h.dead:
+                cl.c.maxlen = 110
+                name, n = cl.c.data(img[off:])
+                cl.c.maxlen = 255
+                st = self.q(cl, name, meta={"kind": "D", "image": img, "off": off, "n": n})
+                if st:
+                    cl.sent.append(st)
+                off += n
+                cl.c.up_frag = (cl.c.up_frag + 1) & 15
+                if self.rng.random() < 0.6:
+                    self.act_redeliver_held()
+                if self.rng.random() < 0.3:
+                    self.h.send("tick", {"kind": "tick"})
+            if self.rng.random() < 0.5:
+                self.act_ping(cl)
+
     def run(self, nsteps, hostile=0.0):
         rng = self.rng
+        if rng.random() < 0.5:
+            self.scenario_lazy_repeats()
         for _ in range(nsteps):
             if self.h.dead:
                 break
